@@ -4,6 +4,7 @@ package main
 // histories, crash-image enumeration.
 
 import (
+	"sync/atomic"
 	"bytes"
 	"fmt"
 	"runtime"
@@ -1018,7 +1019,7 @@ func kvsConcCrash(rng *Rng, res *KvsRes, viol func(string, ...interface{})) {
 					return
 				default:
 				}
-				if kv.MultiPut(pairs) {
+				if kvPut(kv, pairs) {
 					viol("a MultiPut of 520 pairs (more than one journal transaction holds) is answered true")
 					return
 				}
@@ -1151,7 +1152,7 @@ func runKvsHistory(rng *Rng, res *KvsRes, viol func(string, ...interface{})) {
 						pairs = append(pairs, kvs.KVPair{Key: keys[pi], Val: kvVal(id)})
 					}
 					call := tick()
-					o.OK = kv.MultiPut(pairs)
+					o.OK = kvPut(kv, pairs)
 					ret := tick()
 					mu.Lock()
 					ops = append(ops, porcupine.Operation{ClientId: c, Input: o, Output: o, Call: call, Return: ret})
@@ -1159,7 +1160,7 @@ func runKvsHistory(rng *Rng, res *KvsRes, viol func(string, ...interface{})) {
 				} else {
 					o.Keys = []uint64{keys[r.Intn(len(keys))]}
 					call := tick()
-					p, ok := kv.Get(o.Keys[0])
+					p, ok := kvGet(kv, o.Keys[0])
 					ret := tick()
 					o.Got, o.Valid = kvID(p.Val)
 					o.GotOK = ok
@@ -1225,3 +1226,20 @@ func runKvsHistory(rng *Rng, res *KvsRes, viol func(string, ...interface{})) {
 }
 
 var _ = nt.NFS3_OK
+
+
+// kvPut/kvGet count as outstanding requests for the progress watchdog: a call
+// that is outstanding for 60 s while not a single disk event happens will never
+// return (the store has no timeouts) - "a get returns the value of the latest
+// put" cannot hold for a get that never returns.
+func kvPut(kv *kvs.KVS, pairs []kvs.KVPair) bool {
+	atomic.AddInt64(&rpcsOutstanding, 1)
+	defer atomic.AddInt64(&rpcsOutstanding, -1)
+	return kv.MultiPut(pairs)
+}
+
+func kvGet(kv *kvs.KVS, k uint64) (*kvs.KVPair, bool) {
+	atomic.AddInt64(&rpcsOutstanding, 1)
+	defer atomic.AddInt64(&rpcsOutstanding, -1)
+	return kv.Get(k)
+}
